@@ -2212,6 +2212,14 @@ def cmd_hostile(args):
         if args.get("adversarial"):
             for c in MU.adversarial(rng, big=args.get("big", False)):
                 yield c
+            # deep back-reference chains whose top level must be hashed (in a forked child: see below)
+            for depth in ([2000, 200000] if not args.get("big") else [2000, 200000, 400000]):
+                yield "adversarial:ref-chain-hash:%d" % depth, MU.ref_chain((3, 8) if HOSTV != (3, 8) else (3, 4), depth)
+            for c in MU.dropbox_streams(rng):
+                yield c
+            for c in MU.dropbox_headers(rng):
+                pad = c[1] + b"\0" * max(0, 60 - len(c[1]))  # load_module refuses files below 50 bytes outright
+                yield c[0], pad
         for sp in args["seeds"]:
             with open(sp, "rb") as f:
                 data = f.read()
@@ -2221,6 +2229,8 @@ def cmd_hostile(args):
                 yield c
             n = len(data)
             k = min(n, args["positions"])
+            if data[:2] == b"\xb7\xf2":
+                k = min(n, max(k, 300))  # the dropbox reader is a parser of its own: denser byte coverage
             pos = list(range(n)) if k >= n else sorted(set([0, 1, 2, 3, 4, 5, 6, 7, 8, 12, 16, 17, 20] + [rng.randrange(n) for _ in range(k)]))
             pos = [p for p in pos if p < n]
             for c in MU.byte_mutations(data, rng, pos):
@@ -2271,6 +2281,7 @@ def cmd_hostile(args):
         with open(case_path, "wb") as f:
             f.write(data)
         native_case = len(data) >= 2 and _struct.unpack("<H", data[:2])[0] == PYTHON_MAGIC_INT and label != "valid"
+        risky_case = label.startswith("adversarial:ref-chain-hash")
 
         def one_case():
             before = set(os.listdir(workdir))
@@ -2311,17 +2322,19 @@ def cmd_hostile(args):
             return {"outcome": outcome, "err": err, "peak": peak, "steps": obs.steps, "events": [list(e) for e in obs.events],
                     "new": sorted(after - before)[:5], "gone": sorted(before - after)[:5]}
 
-        if native_case:
-            # the built-in marshal (fast path) can take the whole interpreter down on corrupt input:
-            # observe such cases from outside, in a forked child
+        if native_case or risky_case:
+            # the built-in marshal (fast path) can take the whole interpreter down on corrupt input, and so can C-level
+            # recursion on a hostile object graph: observe such cases from outside, in a forked child
             rr, st = in_child2(one_case)
             if rr is None:
                 acc.evaluations += 1
                 acc.count("outcome:interpreter-crash")
                 sig = os.WTERMSIG(st) if os.WIFSIGNALED(st) else -1
                 cls0 = label.split(":v")[0] if label.startswith("adversarial") else label
-                acc.mismatch("C11|interpreter-crash:signal-%d|native-marshal-fast-path|%s" % (sig, cls0), host=vs(HOSTV), size=len(data),
-                             hex=C.hexs(data[:600]), klass=label)
+                if risky_case:
+                    cls0 = "adversarial:ref-chain-hash"
+                acc.mismatch("C11|interpreter-crash:signal-%d|%s|%s" % (sig, "native-marshal-fast-path" if native_case else "xdis-unmarshaller", cls0),
+                             host=vs(HOSTV), size=len(data), hex=C.hexs(data[:200]), klass=label)
                 continue
         else:
             rr = one_case()
@@ -2408,6 +2421,24 @@ def cmd_scaling(args):
         acc.distinct.add(sha(["scaling", code]))
         if len(ratios) >= 2 and all(r > 3.0 for r in ratios[-2:]) and times[-1] > 0.5:
             acc.mismatch("C11|superlinear-time|container:%s" % code, sizes=args["sizes"], cpu_s=[round(t, 3) for t in times])
+    # hostile DAG: every level refers twice to the level below; hashing it naively costs 2^depth
+    times = []
+    depths = args.get("dag_depths", [20, 23, 26])
+    for d in depths:
+        with open(p, "wb") as f:
+            f.write(MU.ref_chain((3, 8) if HOSTV != (3, 8) else (3, 4), d, fanout=2))
+        t = time.process_time()
+        try:
+            load_module(p)
+        except ImportError:
+            pass
+        times.append(time.process_time() - t)
+    acc.evaluations += 1
+    acc.sample({"type_code": "dag-hash", "depths": depths, "cpu_s": [round(t, 3) for t in times]}, limit=20)
+    acc.distinct.add(sha(["scaling", "dag-hash"]))
+    if times[-1] > 0.3 and times[-1] > 4 * max(times[-2], 1e-3) and times[-2] > 4 * max(times[-3], 1e-3) * 0.5:
+        acc.mismatch("C11|superlinear-time|dag-hash", depths=depths, cpu_s=[round(t, 3) for t in times],
+                     file_bytes=len(MU.ref_chain((3, 8), depths[-1], fanout=2)))
     try:
         os.unlink(p)
     except OSError:
